@@ -400,6 +400,28 @@ fn offer_mutations(w: &mut World, n: usize, out: &crate::repl::SyncOutcome, hone
             Some(true) => {
                 any_accepted = true;
                 w.stats.tampered_accepted += 1;
+                let kind = format!("{m:?}");
+                let kind = kind.split(|c| c == ' ' || c == '{').next().unwrap_or("").to_string();
+                w.stats.probe(&format!("accepted_{kind}"));
+                // Some alterations are void (they touch something the verifier has no use for in
+                // the replica's current state) and acceptance is judged by truthfulness below. But
+                // block bytes, the signature and the fork are ALWAYS checked when present: a proof
+                // altered there must be refused in every state.
+                if matches!(
+                    m,
+                    Mutation::FlipValue { .. }
+                        | Mutation::SubstituteBlock { .. }
+                        | Mutation::FlipSignature { .. }
+                        | Mutation::ForeignSignature
+                        | Mutation::StaleSignature
+                        | Mutation::SignatureLength { .. }
+                        | Mutation::Fork { .. }
+                ) {
+                    w.viol(
+                        "C04.forgery-accepted",
+                        format!("proof altered by {m:?} was accepted (block bytes, signature and fork are authenticated in every state)"),
+                    );
+                }
                 w.stats.probe("tampered_accepted");
                 // accepted: the replica must still be truthful: (length, byte_length) is a state
                 // the writer signed, every held block equals the writer's
